@@ -62,9 +62,11 @@ def rule_g1(ctx):
     else:
         et, rt = exist_tests[0], reuse_tests[0]
         # emptiness is part of the test and has the right polarity
-        s = A.src(et.ast.test)
-        nonempty = ('> 0' in s or '>= 1' in s or '!= 0' in s or 'any(' in s) and ('glob' in s or 'listdir' in s
-                                                                                    or 'iterdir' in s or 'scandir' in s)
+        kind0, ats0 = A.atoms(et.ast.test)
+        nonempty = kind0 == 'and' and any(
+            len(a) == 3 and ((a[2] is not None and any(k in A.src(a[0]) for k in ('glob', 'listdir', 'iterdir', 'scandir'))
+                              and ((a[1] in ('>', '!=') and A.int_value(a[2]) == 0) or (a[1] == '>=' and A.int_value(a[2]) == 1)))
+                             or (a[1] == 'truthy' and 'any(' in A.src(a[0]))) for a in ats0)
         t_succ = [y for (y, k) in g.succ[et.id] if k == 'true']
         # from the true edge, the open is reachable only through the reuse test
         p = None
